@@ -2,6 +2,9 @@
    ident.code, hence code is injective: two name identifiers share a cache row
    only if all five fields agree (None and "" being the same absent value). *)
 From PV Require Import Lib.Base Model.Codec Model.Cache Proofs.Base64_lemmas Proofs.Url_lemmas.
+From PV Require Model.Ident Proofs.Ident_lemmas.
+Module ID := PV.Model.Ident.
+Module IDL := PV.Proofs.Ident_lemmas.
 From Coq Require Import ZifyN ZifyBool.
 Open Scope N_scope.
 
@@ -60,63 +63,44 @@ Proof.
   apply negb_true_iff in Hx. now rewrite N.eqb_sym.
 Qed.
 
-(* ---- one part  "<digit>=<quoted value>" ---- *)
-Lemma decode_part_field i v m : i <= 4 -> Forall byte v ->
-  decode_part (Ok m) ((48 + i) :: EQ :: quote_id v) = Ok (set_field m i v).
+(* ---- ident.code in Model/Ident.v and here: one function ---- *)
+Lemma quote_same bs : ID.quote_s bs = quote_id bs.
+Proof. reflexivity. Qed.
+
+Lemma enc_part_code_field i o : ID.enc_part i o = code_field i (od o).
 Proof.
-  intros Hi Hv. unfold decode_part.
-  assert (split_first EQ ((48 + i) :: EQ :: quote_id v) [] = Some ([48 + i], quote_id v)) as Hs.
-  { cbn [split_first]. replace (48 + i =? EQ) with false by (unfold EQ; lia). now rewrite N.eqb_refl. }
-  rewrite Hs.
-  rewrite (has_char_false EQ (quote_id v) (id_safe_no EQ (quote_id v) (or_intror eq_refl) (quote_id_safe v Hv))).
-  replace ((48 <=? 48 + i) && (48 + i <=? 52)) with true by lia.
-  replace (48 + i - 48) with i by lia. now rewrite (unquote_quote_id v Hv).
+  unfold ID.enc_part, code_field, od. destruct (ID.tr o) as [v|] eqn:E; [|reflexivity].
+  apply IDL.tr_some in E as [_ Hne]. destruct v as [|c v]; [congruence|].
+  unfold ID.digit. now rewrite quote_same.
 Qed.
 
-Lemma part_no_comma i v : i <= 4 -> Forall byte v ->
-  forallb (fun c => negb (c =? COMMA)) ((48 + i) :: EQ :: quote_id v) = true.
+Theorem code_of_ident n : code (of_ident n) = ID.code n.
 Proof.
-  intros Hi Hv. cbn [forallb]. rewrite (id_safe_no COMMA (quote_id v) (or_introl eq_refl) (quote_id_safe v Hv)).
-  unfold COMMA, EQ. replace (48 + i =? 44) with false by lia. reflexivity.
+  unfold code, ID.code, code_parts, ID.enc_parts, of_ident. cbn [nq spnq fmt spid txt].
+  now rewrite !enc_part_code_field.
 Qed.
 
-Lemma fold_code_field i v m : i <= 4 -> Forall byte v ->
-  fold_left decode_part (code_field i v) (Ok m) = Ok (match v with [] => m | _ => set_field m i v end).
-Proof.
-  intros Hi Hv. destruct v as [|c v]; [reflexivity|]. cbn [code_field fold_left]. now apply decode_part_field.
-Qed.
+Lemma of_ident_norm n : of_ident (ID.norm n) = of_ident n.
+Proof. unfold of_ident, ID.norm, od. cbn. now rewrite !IDL.tr_tr. Qed.
 
-Lemma code_field_no_comma i v : i <= 4 -> Forall byte v ->
-  Forall (fun p => forallb (fun c => negb (c =? COMMA)) p = true) (code_field i v).
-Proof.
-  intros Hi Hv. destruct v as [|c v]; [constructor|]. constructor; [|constructor]. now apply part_no_comma.
-Qed.
+(* a record of this file read back as an ident.py NameID *)
+Definition to_ident (n : nameid) : ID.nameid :=
+  ID.NameId (Some (nq n)) (Some (spnq n)) (Some (fmt n)) (Some (spid n)) (Some (txt n)).
 
-(* ---- the whole key ---- *)
-Lemma decode_parts n : byte_nid n ->
-  fold_left decode_part (code_parts n) (Ok no_nid) = Ok n.
-Proof.
-  intros (H0 & H1 & H2 & H3 & H4). unfold code_parts.
-  rewrite !fold_left_app.
-  rewrite (fold_code_field 0 (nq n)) by (try lia; assumption).
-  rewrite (fold_code_field 1 (spnq n)) by (try lia; assumption).
-  rewrite (fold_code_field 2 (fmt n)) by (try lia; assumption).
-  rewrite (fold_code_field 3 (spid n)) by (try lia; assumption).
-  rewrite (fold_code_field 4 (txt n)) by (try lia; assumption).
-  destruct n as [a b c d e]. cbn [nq spnq fmt spid txt].
-  destruct a, b, c, d, e; reflexivity.
-Qed.
+Lemma od_some v : od (Some v) = v.
+Proof. destruct v; reflexivity. Qed.
 
+Lemma of_to_ident n : of_ident (to_ident n) = n.
+Proof. destruct n. unfold of_ident, to_ident. cbn. now rewrite !od_some. Qed.
+
+Lemma to_ident_wfb n : byte_nid n -> IDL.wfb (to_ident n).
+Proof. intros (H0 & H1 & H2 & H3 & H4). repeat split; assumption. Qed.
+
+(* ---- the whole key: decode (= ident.decode of Model/Ident.v) is a left inverse of code ---- *)
 Theorem decode_code n : byte_nid n -> decode (code n) = Ok n.
 Proof.
-  intros H. unfold decode, code.
-  destruct (code_parts n) as [|p ps] eqn:E.
-  - rewrite <- (decode_parts n H), E. reflexivity.
-  - rewrite split_join.
-    + rewrite <- E. now apply decode_parts.
-    + discriminate.
-    + rewrite <- E. destruct H as (H0 & H1 & H2 & H3 & H4). unfold code_parts.
-      repeat (apply Forall_app; split); apply code_field_no_comma; (lia || assumption).
+  intros H. unfold decode. rewrite <- (of_to_ident n) at 1. rewrite code_of_ident.
+  rewrite (IDL.decode_code (to_ident n) (to_ident_wfb n H)). now rewrite of_ident_norm, of_to_ident.
 Qed.
 
 Theorem code_injective a b : byte_nid a -> byte_nid b -> code a = code b -> a = b.
